@@ -112,7 +112,7 @@ static COUNTER: AtomicU64 = AtomicU64::new(0);
 
 fn scratch_dir() -> PathBuf {
     let n = COUNTER.fetch_add(1, Ordering::SeqCst);
-    let d = PathBuf::from(format!("/verif/.build/tmp/c20-{}-{}", std::process::id(), n));
+    let d = PathBuf::from(format!("{}/.build/tmp/c20-{}-{}", crate::engine::verif_dir(), std::process::id(), n));
     let _ = std::fs::create_dir_all(&d);
     d
 }
